@@ -35,8 +35,7 @@ def check_same_source(ctx, F):
         if chunker is not None and any((rules.callee(t) or {}).get('def') == chunker.defpath for _, t in b.calls()):
             exporters.append(b)
     ctx.extra['state_exporters'] = len(exporters)
-    if len(exporters) < 6:
-        ctx.bad('R4', 'floor: exporters of the ANS state', ANS, 'only %d functions chunk the state (>= 6 on the reference tree)' % len(exporters), key='R4/floor/exporters')
+    ctx.floor('R4', 'floor: exporters of the ANS state', ANS, len(exporters), 6, 'only %d functions chunk the state (>= 6 on the reference tree)' % len(exporters), key='R4/floor/exporters')
     for b in exporters:
         ev, paths = rules.evaluate(b)
         ctx.touch(b, calls=sum(1 for _ in b.calls()))
